@@ -152,7 +152,7 @@ def compare_system(rec, fd, d, mfa, route, param_truth=None, sig=""):
                 bad("parameter-dims-differ", parameter=p["name"], got=list(par.dims.letters), expected=list(p["letters"]))
             elif param_truth is not None and not np.array_equal(par.values, param_truth[p["name"]]):
                 bad("parameter-values-differ-from-file", parameter=p["name"])
-            if par.name != p["name"]:
+            if par.name != p["name"] and route != "user-written-reader":  # what a user's own reader calls its objects is the user's business
                 bad("parameter-name-attribute-differs", got=par.name, expected=p["name"])
 
 
@@ -196,7 +196,7 @@ def files_case(rec, hub, rng, tier, d, tmpdir, i):
     d.parameters = [p for p in d.parameters if len(p["letters"]) > 0]
     dimdefs, flows, stocks, params = SY.fd_definitions(fd, d)
     definition = fd.MFADefinition(dimensions=dimdefs, processes=d.processes, flows=flows, stocks=stocks, parameters=params)
-    route = ["csv", "xlsx-named-sheets", "xlsx-first-sheet", "data_reader"][i % 4]
+    route = ["csv", "xlsx-named-sheets", "xlsx-first-sheet", "data_reader", "csv", "user-written-reader"][i % 6]
     xlsx = route.startswith("xlsx")
     ext = "xlsx" if xlsx else "csv"
     dim_files, par_files, dim_sheets, par_sheets = {}, {}, {}, {}
@@ -237,7 +237,24 @@ def files_case(rec, hub, rng, tier, d, tmpdir, i):
         except Exception:
             pass
     try:
-        if route == "csv":
+        if route == "user-written-reader":
+            # a DataReader written by the user: dimensions and parameter values from memory; the Parameter objects it returns carry the
+            # default name or a name of the user's own - the system files them under the names of the DEFINITION
+            by_name = {n: (l, it, dt) for l, n, it, dt in d.dims}
+            own = str(rng.choice(["default", "other", "same"]))
+
+            class UserReader(fd.DataReader):
+                def read_dimension(self, definition):
+                    l_, it_, dt_ = by_name[definition.name]
+                    return fd.Dimension(name=definition.name, letter=definition.letter, items=list(it_), dtype=definition.dtype)
+
+                def read_parameter_values(self, parameter_name, dims):
+                    kw_ = {} if own == "default" else {"name": "from my database" if own == "other" else parameter_name}
+                    return fd.Parameter(dims=dims, values=np.array(truth[parameter_name], dtype=float), **kw_)
+
+            rec.event(MB, sig=f"user-reader|{own}", cls=f"user-written-reader|parameter names: {own}")
+            mfa = fd.MFASystem.from_data_reader(definition, UserReader())
+        elif route == "csv":
             mfa = fd.MFASystem.from_csv(definition, dimension_files=dim_files, parameter_files=par_files)
         elif route == "xlsx-named-sheets":
             mfa = fd.MFASystem.from_excel(definition, dimension_files=dim_files, parameter_files=par_files, dimension_sheets=dim_sheets, parameter_sheets=par_sheets)
@@ -382,10 +399,16 @@ def one(rec, hub, seed, tier, i, tmpdir):
     fd = hub.fd
     rng = case_nprng(seed, "c18.system", 0, i)
     which = i % 3
-    d = SY.gen_def(rng, hostile_names=(tier == "thorough"), time_letter_variants=0.0 if which == 0 and i % 2 == 0 else 0.35, vary_items=True, big_system=0.03)
+    n_time = [None, None, None, None, 1, 2][int(rng.integers(0, 6))]  # also systems over one or two time steps (nothing is computed here)
+    d = SY.gen_def(rng, hostile_names=(tier == "thorough"), time_letter_variants=0.0 if which == 0 and i % 2 == 0 else 0.35, vary_items=True, big_system=0.03, n_time=n_time)
     # distinct flow names (the statement's domain): overrides for parallel edges are generated by gen_def
     if which == 0:
-        mfa = SY.build_system(fd, d)
+        try:
+            mfa = SY.build_system(fd, d)
+        except Exception as e:
+            rec.event(MB, sig="helpers|raised", cls="helpers|raised")
+            rec.violation(MB, "building-from-definitions-raised:helpers", {"exc": f"{type(e).__name__}: {str(e)[:300]}", "dims": [(l, it[:4]) for l, n, it, dt in d.dims], "stocks": [(s_["cls"], s_["lm"]) for s_ in d.stocks][:4]})
+            return
         compare_system(rec, fd, d, mfa, "helpers")
         if any(l == "t" and n == "time" for l, n, it, dt in d.dims):
             refusals(rec, hub, rng, d)  # written for a time dimension lettered 't'
